@@ -319,7 +319,7 @@ func (a *aggregator) flush(report func(key, what string, replay any)) {
 	type mk struct{ arch, mnem, oracle string }
 	type entry struct {
 		arch, group, mnem, oracle, field, classes string
-		first                                    *candidate
+		first                                     *candidate
 	}
 	bym := map[mk][]*candidate{}
 	for _, c := range rest {
